@@ -18,7 +18,7 @@ ITERATIVE_SOLVERS = {
     for n in ("bicgstab", "bicg", "cg", "cgs", "gmres", "lgmres", "minres", "qmr", "gcrotmk", "tfqmr")
 }
 
-SIM_CLASSES = ["IdealReservoir", "SinglePhaseReservoir"]
+SIM_CLASSES = ["IdealReservoir", "SinglePhaseReservoir", "TwoPhaseReservoir"]  # concrete classes: methods resolved through each MRO
 
 
 def k_atom(pos):
